@@ -1,0 +1,11 @@
+//go:build verif
+
+// Contracts for the deductive checks under /verif (comment-only; compiled only with -tags verif).
+
+package consensus
+
+// Trusted frame: verifying the uncles of a block reads the chain and the block; it writes nothing
+// a contract mentions (the acceptance rule itself is property C13).
+//@ type Engine.VerifyUncles
+//@   trusted
+//@   assigns nothing
